@@ -48,11 +48,12 @@ fn leaves(g: &Graph, labels: &HashMap<String, String>) -> Result<Leaves, String>
     let mut l = Leaves { t: None, f: None };
     for (id, label) in &g.nodes {
         if g.out_edges(id).is_empty() {
-            match label.as_str() {
-                "true" if l.t.is_none() => l.t = Some(id.clone()),
-                "false" if l.f.is_none() => l.f = Some(id.clone()),
-                "true" | "false" => return Err(format!("two `{}` leaves are declared", label)),
-                other => return Err(format!("node {} labelled `{}` has no outgoing edge", id, other)),
+            // the tool's own vocabulary for the two truth values (true/t/1, false/f/0)
+            match cli::entry(label) {
+                Some(cli::Cell::True) if l.t.is_none() => l.t = Some(id.clone()),
+                Some(cli::Cell::False) if l.f.is_none() => l.f = Some(id.clone()),
+                Some(cli::Cell::True) | Some(cli::Cell::False) => return Err(format!("two `{}` leaves are declared", label)),
+                _ => return Err(format!("node {} labelled `{}` has no outgoing edge", id, label)),
             }
         }
     }
@@ -85,7 +86,8 @@ fn eval_graph(
             .position(|n| n == label)
             .ok_or_else(|| format!("node labelled `{}` is not a variable of the diagram", label))?;
         let want = if (idx >> p) & 1 == 1 { "T" } else { "F" };
-        let outs: Vec<&str> = g.out_edges(&cur).into_iter().filter(|(l, _)| *l == want).map(|(_, b)| b).collect();
+        let wantc = if (idx >> p) & 1 == 1 { cli::Cell::True } else { cli::Cell::False };
+        let outs: Vec<&str> = g.out_edges(&cur).into_iter().filter(|(l, _)| cli::entry(l) == Some(wantc.clone())).map(|(_, b)| b).collect();
         match outs.len() {
             1 => cur = outs[0].to_string(),
             0 => return missing.ok_or_else(|| format!("test node {} has no {} edge", cur, want)),
@@ -126,8 +128,8 @@ pub fn check_bdd_exports<S: BDDSymbol>(b: &Rc<BDD<S>>, names: &[String], tt: &TT
             continue;
         }
         let outs = any.out_edges(id);
-        let nt = outs.iter().filter(|(l, _)| *l == "T").count();
-        let nf = outs.iter().filter(|(l, _)| *l == "F").count();
+        let nt = outs.iter().filter(|(l, _)| cli::entry(l) == Some(cli::Cell::True)).count();
+        let nf = outs.iter().filter(|(l, _)| cli::entry(l) == Some(cli::Cell::False)).count();
         if nt != 1 || nf != 1 || outs.len() != 2 {
             return Err(format!("test node {} has {} T and {} F edges ({} in total)", id, nt, nf, outs.len()));
         }
@@ -236,9 +238,9 @@ fn leaves_filtered(g: &Graph) -> Result<Leaves, String> {
     let mut l = Leaves { t: None, f: None };
     for (id, label) in &g.nodes {
         if g.out_edges(id).is_empty() {
-            match label.as_str() {
-                "true" if l.t.is_none() => l.t = Some(id.clone()),
-                "false" if l.f.is_none() => l.f = Some(id.clone()),
+            match cli::entry(label) {
+                Some(cli::Cell::True) if l.t.is_none() => l.t = Some(id.clone()),
+                Some(cli::Cell::False) if l.f.is_none() => l.f = Some(id.clone()),
                 _ => return Err(format!("filtered export: node {} (`{}`) has no outgoing edge", id, label)),
             }
         }
